@@ -720,6 +720,18 @@ class Transformer:
                                 f"RULES delta offset '{rules_string}'"
                                 f"truncated to '{hm}'")
 
+                    # Check that the delta offset fits in the same 4-bit field
+                    # (delta_seconds / 900s + 1h) that holds the SAVE of a Rule.
+                    delta_code = div_to_zero(
+                        rules_delta_seconds_truncated, 900) + 4
+                    if delta_code < 0 or delta_code > 15:
+                        valid = False
+                        _add_reason(
+                            removed_zones, name,
+                            f"RULES delta offset '{rules_string}' too large "
+                            f"for 4-bits")
+                        break
+
                     era['rules'] = ':'
                     era['rulesDeltaSeconds'] = rules_delta_seconds
                     era['rulesDeltaSecondsTruncated'] = \
